@@ -151,7 +151,58 @@ def _log(a):
         if q != 1:
             res = res + _log_of_rational(q)
         return Rat(res)
+    # factor the monomial content out of numerator and denominator:  log(y (1 + t)) = log y + log(1 + t)
+    cn, cd = _content(a.n), _content(a.d)
+    if (cn is not None and cn[1]) or (cd is not None and cd[1]):
+        res = Rat(Poly())
+        rest_n, rest_d = a.n, a.d
+        if cn is not None and cn[1]:
+            mono = Poly({tuple(sorted(cn[1].items(), key=lambda y: repr(y[0]))): Fraction(1)})
+            res = res + _log(Rat(mono))
+            rest_n = _divide_mono(a.n, cn[1])
+        if cd is not None and cd[1]:
+            mono = Poly({tuple(sorted(cd[1].items(), key=lambda y: repr(y[0]))): Fraction(1)})
+            res = res - _log(Rat(mono))
+            rest_d = _divide_mono(a.d, cd[1])
+        return res + _log(Rat(rest_n, rest_d))
+    # monomial / polynomial or polynomial / monomial: split, with the sign convention "constant term of the
+    # polynomial positive" (so that log(w/(1-x)) = log w - log(1-x))
+    for mono_, pol_, mono_is_num in ((a.n, a.d, True), (a.d, a.n, False)):
+        if len(mono_.t) == 1 and len(pol_.t) >= 2 and not (mono_.is_const() and mono_.const_value() == 1 and not mono_is_num):
+            c0 = pol_.t.get((), None)
+            s_ = 1 if (c0 is None or c0 > 0) else -1
+            (m, c), = mono_.t.items()
+            if c * s_ > 0:
+                lm = _log(Rat(mono_.scale(s_)))
+                lp = Rat(Poly.atom(LOG(key(Rat(pol_.scale(s_))))))
+                return (lm - lp) if mono_is_num else (lp - lm)
     return Rat(Poly.atom(LOG(key(a))))
+
+
+def _content(p):
+    """(1, {atom: min exponent over all monomials}) of a polynomial with >= 2 terms"""
+    if len(p.t) < 2:
+        return None
+    common = None
+    for m in p.t:
+        d = dict(m)
+        if common is None:
+            common = d
+        else:
+            common = {a: min(e, d.get(a, 0)) for a, e in common.items() if d.get(a, 0) > 0}
+    return 1, {a: e for a, e in (common or {}).items() if e > 0}
+
+
+def _divide_mono(p, mono):
+    r = {}
+    for m, c in p.t.items():
+        d = dict(m)
+        for a, e in mono.items():
+            d[a] -= e
+            if d[a] == 0:
+                del d[a]
+        r[tuple(sorted(d.items(), key=lambda y: repr(y[0])))] = c
+    return Poly(r)
 
 
 def _li2(a):
@@ -209,8 +260,15 @@ def diff_term(t, var, fn_derivs=None):
         return ("/", ("-", ("*", D(t[1]), t[2]), ("*", t[1], D(t[2]))), ("*", t[2], t[2]))
     if h == "pow":
         e = t[2]
-        return ("*", ("*", e, ("pow", t[1], ("-", e, N(1))) if e != N(1) else N(1)), D(t[1])) \
-            if e[0] == "num" else _np("symbolic exponent")
+        if e[0] == "neg" and e[1][0] == "num":
+            e = ("num", -e[1][1])
+        if e[0] != "num":
+            _np("symbolic exponent")
+        if e[1] == 1:
+            return D(t[1])
+        em1 = e[1] - 1
+        pw = ("pow", t[1], ("num", em1)) if em1 >= 0 else ("/", N(1), ("pow", t[1], ("num", -em1)))
+        return ("*", ("*", e, pw), D(t[1]))
     if h == "call":
         name = short(t[1])
         a = t[2]
